@@ -4,7 +4,7 @@
   `create_feature_from_location` and the search of `get_trimmed_orf`.
   One Lean function per Python function / loop, same branch order, same `<` vs `<=`.
 
-  The model is of the tree *with* fixes/D13, D25, D26 applied (reverse-strand wrapped parts in
+  The model is of the tree *with* fixes/D13, D28, D29 applied (reverse-strand wrapped parts in
   transcription order; `loc_start >= loc_end` wraps; `last` never moves backwards) and
   *without* a repair of D23 (the `end - start < minimum_length` cull, pinned by the repo's own
   `test_no_hits`): the cull is transcribed as it is.
